@@ -604,3 +604,16 @@ Proof.
       unfold abs_entry, abs_htlc. cbn [snd G.h_expiry]. fold s in Hs. apply orb_true_iff. right. lia. }
   split; [exact Hp|]. apply GP.htlc_import_total_lemma. exact Hp.
 Qed.
+
+(** ** the known finding at the message level: WITH a parameter change in the history the statement fails.  An
+    incoming transfer of 200 is opened, then the authority deactivates the asset (the model's [SetParams]
+    accepts the set, as Keeper.SetParams does): the export of the abstraction validates and its import panics
+    (ValidateLiveAsset).  This is why the theorems above are stated for [wf_op] histories. *)
+Definition ex_P_inactive : list M.aparam := [M.mkAP 0 1000 true 500 (60 * M.ns) false 3 1 1 400 50 100].
+Theorem htlc_history_param_change_refuted :
+  let ops := [ M.Create (M.mkCreate 3 0 [(0, 200)] (8, 1700000000) 1700000000 50 true); M.SetParams M.GOV ex_P_inactive ] in
+  let s := MP.reachable ex_P ex_B (1700000000 * M.ns) ops in
+  M.params_valid ex_P_inactive = true /\ M.st_params s = ex_P_inactive
+  /\ length (G.g_htlcs (G.export (ex_abs s))) = 1%nat
+  /\ G.validate true (G.export (ex_abs s)) = true /\ G.import true (G.export (ex_abs s)) = None.
+Proof. cbv zeta. vm_compute. repeat split; reflexivity. Qed.
